@@ -18,24 +18,24 @@ exec(open(os.path.join(V, "scripts", "manifest_table.py")).read())
 # clauses decided by rules added after the second round of seeded changes (DESIGN.md 8.6)
 EXTRA = {
  "C02": " The routing decision function (R03.1/R03.2, shared with C03) is also an obligation here: the destination selected is never an empty per-level list while the documented routing names another. Gate dominance (R01.1) and the fan-out loop rule (R13.1) are obligations here too: not admitted means nothing written, every selected destination is written. A nested record is issued by the sink only on the destination's own Write error (R02.7). Every index or re-slice at a constant position on the print path is within the length established by the tests that dominate it (R02.8; this rule found the empty-stack-trace panic repaired by c0ef9bd). No method is called on a possibly nil context (R02.9) and no function stores into its caller's argument list (R10.7). The operation frame table of the writer sets (R03.3) is an obligation here too. Reflect accessors that panic on the zero Value need a validity or nil test on the way (R02.5).",
- "C04": " Value fidelity (R04.8): every float is rendered with precision -1 and the bit size of its own static type, every integer in base 10 and every time VALUE with a constant nanosecond layout with zone, the parameters being resolved to constants over all call chains. The JSON escaper loses no byte: every advance of its pending-run marker is dominated by a write of the pending run (R04.8). Conversions between a number and strconv keep every value of its type (R04.8). Member grammar: separator, key, value on every feasible path of the member loop (R04.9). The message reaches the encoder unchanged (R05.10). R04.5 is also evaluated with the testing/debug branches included; the text written under the message key is the message field itself (R05.10). Array grammar: every element writer called between the separators of a list writer writes on every mode-feasible path (R04.10).",
- "C05": " Value fidelity as R04.8 in logfmt mode (R05.8); the de-duplication of a member list merges two attributes only when their Key() strings are equal (R05.9). The message is handed on as given from the verbs to the encoder's message field (R05.10); integer conversions on the way to strconv lose nothing (R05.8). The one-byte escape of the quoter is entered only on width 1 and RuneError (R05.3); the text written under the message key is the message field itself (R05.10).",
- "C06": " The alphabet of the Go-syntax quoter behind every quoted value (R05.3, shared with C05) is also an obligation here. No package-level state is written on the print path (R09.2) and tag widths (R17.6) are obligations here too; padding is never cut from a fixed-size constant (R06.3). The sort rules of C07 (stable, key-only, ascending, comparator a consistent three-way order also for nil placeholders: R07.3/R07.4) and message identity (R05.10) are obligations here too. The tag width setter stores its parameter for every width 1..5 (R06.3). The payload handed to the destination is the finished record, Bytes() right after End(true) (R02.3).",
- "C07": " The name a context value is stored under is a term over the very key it was looked up with (R07.5 pairing). A logger's attribute list is a fresh slice or an append to its own (R10.1 shared). The comparator is a consistent three-way order over {nil, nil}, {nil, attribute} and the key relation (R07.3 table). Ownership of written memory (R08.1/R08.2) and nil-context safety (R02.9) are obligations here too. The key printed is the element's own Key(), dot-prefixed at most (R07.4).",
- "C08": " In each output mode no field of the pooled encoder is read before the current call wrote it (R08.5 = engine E10), and the pool discipline R02.6 is an obligation here: a payload is the record of exactly one call. A new formatting context starts on memory of its own (R08.3). No mutating method of the attribute interface is called on an attribute of a record: the objects are the logger's (R08.1). No slice of a package-level array is handed to a callee that fills it on the print path (R08.1). Destination wrappers keep no per-record state between SetLevel and Write (R08.6).",
- "C09": " The pool discipline (R02.6, shared with C02) is also an obligation here: neither the pooled context nor bytes taken from it are used after it went back to the pool. Ownership of written and in-place mutated memory (R08.1/R08.2) is an obligation here too. No mutating method of the attribute interface is called on an attribute of a record (R08.1). No slice of a package-level array is handed to a callee that fills it on the print path (R08.1).",
- "C10": " A With... method's child is anonymous or is looked up under a name whose term mentions every parameter of the method (R10.4). No function of the package stores into an element of its variadic or []any parameter (R10.7). Package-level functions delegate to their namesake on the default logger (R10.8); inside newentry's loop every element reaches the option test except over the name edge (R10.3); the format transition table (R11.1) is an obligation here too.",
- "C11": " WithJSONMode/WithColorMode create a child of their own: anonymous, or named by a term over their arguments (R11.5); the record order per mode (R11.3) replaces the test for one particular branch. Options are applied by direct calls in the order given (R11.4). In JSON and logfmt mode, the testing/debug dump included, no site that writes a terminal escape sequence (own constants or the dependency's colour helpers) is reachable; the same query finds them in colored mode (R11.7).",
+ "C04": " Value fidelity (R04.8): every float is rendered with precision -1 and the bit size of its own static type, every integer in base 10 and every time VALUE with a constant nanosecond layout with zone, the parameters being resolved to constants over all call chains. The JSON escaper loses no byte: every advance of its pending-run marker is dominated by a write of the pending run (R04.8). Conversions between a number and strconv keep every value of its type (R04.8). Member grammar: separator, key, value on every feasible path of the member loop (R04.9). The message reaches the encoder unchanged (R05.10). R04.5 is also evaluated with the testing/debug branches included; the text written under the message key is the message field itself (R05.10). Array grammar: every element writer called between the separators of a list writer writes on every mode-feasible path (R04.10). Marshaller interfaces are consulted only after the built-in arms missed (R04.11); pair grammar of the fixed members (R05.11); pool discipline (R02.6).",
+ "C05": " Value fidelity as R04.8 in logfmt mode (R05.8); the de-duplication of a member list merges two attributes only when their Key() strings are equal (R05.9). The message is handed on as given from the verbs to the encoder's message field (R05.10); integer conversions on the way to strconv lose nothing (R05.8). The one-byte escape of the quoter is entered only on width 1 and RuneError (R05.3); the text written under the message key is the message field itself (R05.10). Pair grammar of the fixed members: separators and pairs alternate over every feasible path of the record printer and the member printers, interprocedurally (R05.11); pool discipline (R02.6).",
+ "C06": " The alphabet of the Go-syntax quoter behind every quoted value (R05.3, shared with C05) is also an obligation here. No package-level state is written on the print path (R09.2) and tag widths (R17.6) are obligations here too; padding is never cut from a fixed-size constant (R06.3). The sort rules of C07 (stable, key-only, ascending, comparator a consistent three-way order also for nil placeholders: R07.3/R07.4) and message identity (R05.10) are obligations here too. The tag width setter stores its parameter for every width 1..5 (R06.3). The payload handed to the destination is the finished record, Bytes() right after End(true) (R02.3). Timestamp, severity and message are written on every path of their printers (R06.3); no bufio.Scanner on the print path (R06.3); pool discipline (R02.6).",
+ "C07": " The name a context value is stored under is a term over the very key it was looked up with (R07.5 pairing). A logger's attribute list is a fresh slice or an append to its own (R10.1 shared). The comparator is a consistent three-way order over {nil, nil}, {nil, attribute} and the key relation (R07.3 table). Ownership of written memory (R08.1/R08.2) and nil-context safety (R02.9) are obligations here too. The key printed is the element's own Key(), dot-prefixed at most (R07.4). The list that is sorted, de-duplicated and printed is the collected list itself (R07.4); in the context lookup loop only the key's kind and the presence of its value decide an append (R07.5).",
+ "C08": " In each output mode no field of the pooled encoder is read before the current call wrote it (R08.5 = engine E10), and the pool discipline R02.6 is an obligation here: a payload is the record of exactly one call. A new formatting context starts on memory of its own (R08.3). No mutating method of the attribute interface is called on an attribute of a record: the objects are the logger's (R08.1). No slice of a package-level array is handed to a callee that fills it on the print path (R08.1). Destination wrappers keep no per-record state between SetLevel and Write (R08.6). No atomic write to a field of a shared object on the print path (R08.1); the attribute slice is put back at most once per path and the pooled context is not handed to objects the logger keeps (R08.3).",
+ "C09": " The pool discipline (R02.6, shared with C02) is also an obligation here: neither the pooled context nor bytes taken from it are used after it went back to the pool. Ownership of written and in-place mutated memory (R08.1/R08.2) is an obligation here too. No mutating method of the attribute interface is called on an attribute of a record (R08.1). No slice of a package-level array is handed to a callee that fills it on the print path (R08.1). Capacity independence: no branch outside the buffer API depends on the room left in the pooled buffer (R09.4).",
+ "C10": " A With... method's child is anonymous or is looked up under a name whose term mentions every parameter of the method (R10.4). No function of the package stores into an element of its variadic or []any parameter (R10.7). Package-level functions delegate to their namesake on the default logger (R10.8); inside newentry's loop every element reaches the option test except over the name edge (R10.3); the format transition table (R11.1) is an obligation here too. A new writer set starts from fresh lists (R03.2).",
+ "C11": " WithJSONMode/WithColorMode create a child of their own: anonymous, or named by a term over their arguments (R11.5); the record order per mode (R11.3) replaces the test for one particular branch. Options are applied by direct calls in the order given (R11.4). In JSON and logfmt mode, the testing/debug dump included, no site that writes a terminal escape sequence (own constants or the dependency's colour helpers) is reachable; the same query finds them in colored mode (R11.7). Nothing on the print path keeps rendered text in package-level objects (R08.1).",
  "C12": " No static route from a native entry point to the record printer avoids the function holding the termination step (R12.6). The testing-mode atom is is.InTesting() itself and never reassigned (R12.7). No method is called on a possibly nil context on the print path (R02.9): a nil context never turns a call into a runtime panic. The terminating function and its helpers close no destination and write no writer-set state (R12.8).",
- "C14": " Chains continue above an exported entry point to which another entry point forwards a non-constant message (R14.1); source() extracts the frame of the record's own pc on every path (R14.4); every emission that carries a captured pc carries nothing else (R14.5). The capturing Handle is entered by log/slog only: no handler of the package forwards records to a Handler's Handle (R14.2). The function name's post-processing keeps the end of the name (R14.6). The package-level SetSkip/WithSkip delegate to their namesakes (R10.8). No package-level state is written on the print path (R09.2): the caller reported is that of this call.",
- "C15": " Enabled's decision function depends on nothing but membership of the level in the table, and for a table level the answer is the logger's own on every path (R15.2). A native logger gets every record by exactly one WriteThru carrying the record's own time; which route is taken depends only on the logger's capabilities (R15.3). The value handed on by each kind arm is the accessor's result without a range-losing conversion (R15.3). Enabled does not refuse a level outside the table (R15.2).",
- "C16": " WriteThru, print and PrintCtx.set hand on / store the very time value they are given, and the timestamp printer prints the stored instant (R16.5). SetUTCMode is only called as a pass-through of the caller's own variadic choice (R16.6); a function holding the record's instant does not emit through a route stamped with time.Now() (R16.5).",
- "C18": " AddKnownPathMapping stores the mapping given on every path and RemoveKnownPathMapping deletes exactly the key given (R18.6). Whether a table entry applies never depends on its replacement text (R18.2) and the home rewrite does not depend on the regexp flag (R18.4); the rules cover checkpath and the private helpers it is cut into. The regexp rule list is appended to, cut or replaced as a whole, never overwritten at a remembered position (R18.6).",
- "C01": " The registry writers (R17.3/R17.4: a refused registration leaves the tables untouched; a successful one records the treated-as level for every level value including zero) are obligations here too.",
- "C13": " The package's own writer wrappers forward Write once, without loop or retry (R13.5). On the failure path no index or re-slice at a variable position lacks a dominating bound by the length of the same sequence (R13.3). No == between interface values that can hold an uncomparable repository type on the failure path (R13.3).",
- "C17": " A registration stores only the caller's own tags, each under its own width index (R17.6). ParseLevel consults the name table first: any other successful result is produced only after the table missed (R17.2). UnmarshalText parses the text as it is (R17.2). Every further name entered into the parse table was tested free (R17.3); no per-level text is cached in package-level state on the print path (R09.2).",
- "C20": " The write budget is decided with a symbolic buffer length, so it holds through any split of the formatter into helpers taking a sub-slice. No conversion to a narrower integer loses bits of the value being formatted; loops with a constant trip count are unrolled and local tables tracked cell by cell.",
- "C03": " Writer operations given as New(...) options are all applied: every element of newentry's argument list is offered to the option test (R10.3). An add operation stores its list at most once per path; the identity test of the remove family cannot panic for uncomparable writers (R03.3; three known findings: it does, for the package's own LWs).",
+ "C14": " Chains continue above an exported entry point to which another entry point forwards a non-constant message (R14.1); source() extracts the frame of the record's own pc on every path (R14.4); every emission that carries a captured pc carries nothing else (R14.5). The capturing Handle is entered by log/slog only: no handler of the package forwards records to a Handler's Handle (R14.2). The function name's post-processing keeps the end of the name (R14.6). The package-level SetSkip/WithSkip delegate to their namesakes (R10.8). No package-level state is written on the print path (R09.2): the caller reported is that of this call. Whether the caller is printed depends on flags, mode and the blank-line shortcut only (R14.5).",
+ "C15": " Enabled's decision function depends on nothing but membership of the level in the table, and for a table level the answer is the logger's own on every path (R15.2). A native logger gets every record by exactly one WriteThru carrying the record's own time; which route is taken depends only on the logger's capabilities (R15.3). The value handed on by each kind arm is the accessor's result without a range-losing conversion (R15.3). Enabled does not refuse a level outside the table (R15.2). The writer given to log.New is the bridge itself (R15.5); nothing on the adapter's path writes memory that outlives the call (R08.1).",
+ "C16": " WriteThru, print and PrintCtx.set hand on / store the very time value they are given, and the timestamp printer prints the stored instant (R16.5). SetUTCMode is only called as a pass-through of the caller's own variadic choice (R16.6); a function holding the record's instant does not emit through a route stamped with time.Now() (R16.5). Timestamp printer writes on every path in every mode (R16.3); SetTimeFormat never stores the empty layout (R16.4).",
+ "C18": " AddKnownPathMapping stores the mapping given on every path and RemoveKnownPathMapping deletes exactly the key given (R18.6). Whether a table entry applies never depends on its replacement text (R18.2) and the home rewrite does not depend on the regexp flag (R18.4); the rules cover checkpath and the private helpers it is cut into. The regexp rule list is appended to, cut or replaced as a whole, never overwritten at a remembered position (R18.6). A frame's file name is used only as the argument of the hardening function (R18.7).",
+ "C01": " The registry writers (R17.3/R17.4: a refused registration leaves the tables untouched; a successful one records the treated-as level for every level value including zero) are obligations here too. The diagnostic the sink issues after a failed Write re-enters through a gated entry point (R01.1).",
+ "C13": " The package's own writer wrappers forward Write once, without loop or retry (R13.5). On the failure path no index or re-slice at a variable position lacks a dominating bound by the length of the same sequence (R13.3). No == between interface values that can hold an uncomparable repository type on the failure path (R13.3). The diagnostic is issued on the sink's own receiver through a gated entry point (R13.2, R01.1); one emission per path (R02.1); one Put per path (R08.3).",
+ "C17": " A registration stores only the caller's own tags, each under its own width index (R17.6). ParseLevel consults the name table first: any other successful result is produced only after the table missed (R17.2). UnmarshalText parses the text as it is (R17.2). Every further name entered into the parse table was tested free (R17.3); no per-level text is cached in package-level state on the print path (R09.2). Each setting of the registration pack is written by one option constructor only (R17.5).",
+ "C20": " The write budget is decided with a symbolic buffer length, so it holds through any split of the formatter into helpers taking a sub-slice. No conversion to a narrower integer loses bits of the value being formatted; loops with a constant trip count are unrolled and local tables tracked cell by cell. No byte is stored at an index definitely below the returned start index (R20.1).",
+ "C03": " Writer operations given as New(...) options are all applied: every element of newentry's argument list is offered to the option test (R10.3). An add operation stores its list at most once per path; the identity test of the remove family cannot panic for uncomparable writers (R03.3; three known findings: it does, for the package's own LWs). Every Write in the sink and its failure helpers is on the destination findWriter selected (R03.2).",
 }
 for k, v in EXTRA.items():
     if k in P:
